@@ -1,3 +1,342 @@
-/-! C04 property theorems — stub (not built yet). -/
+import TTModel.C04_Subst
+import TTGen.C04Tables
+import TTProofs.Lemmas.C04_Builders
+import TTProofs.Lemmas.C04_JC
+import TTProofs.Lemmas.C04_Exp
+import TTProofs.Lemmas.C04_Stretch
+import TTProofs.Lemmas.C04_Tables
+/-!
+# C04 — transition probabilities are exp(Qt) of a properly normalised rate matrix
+
+Theorems about the executable model `TTModel/C04_Subst.lean` (mirrors
+`torchtree/evolution/substitution_model/*.py`) and the tables `TTGen/C04Tables.lean` regenerated
+from the source on every run.
+
+* builders (any field / ordered field, any state count `n`, any mapping): rows of `q()` sum to
+  zero, off-diagonal entries are non-negative, detailed balance for the symmetric family,
+  `norm > 0`, and `norm (Q / norm) = 1`;
+* closed forms `JC69.p_t`, `GeneralJC69.p_t` (ℝ): `P(0) = I`, rows sum to one, entries in `[0,1]`,
+  `P(s+t) = P(s) P(t)`, derivative at `0` is `q()`, and `P(t) = exp(t • Q)`;
+* eigen path: if `eigh`/`inverse` deliver `sqrt_pi Q sqrt_pi⁻¹ = V diag(e) V⁻¹`, `V V⁻¹ = 1`, the
+  reconstruction coded in `p_t` IS `NormedSpace.exp (t • Q)`;
+* the matrix exponential of a rate matrix: rows sum to one, entries non-negative, stationarity
+  and detailed balance lift from `Q` to `exp(t • Q)`.
+-/
 namespace TTProps.C04
+open TT TT.C04 Matrix
+
+/-! ## the generated tables -/
+
+/-- the translator recognised `amino_acid.py` and `datatype.py` -/
+theorem translator_recognised : TTGen.C04Tables.translatorOk = true := by decide
+
+def lgRates : Nat → ℚ := fun k => ratOf (TTGen.C04Tables.lgRatesQ.getD k (0, 1))
+def lgFreq : Fin 20 → ℚ := fun i => ratOf (TTGen.C04Tables.lgFreqQ.getD i.val (0, 1))
+def wagRates : Nat → ℚ := fun k => ratOf (TTGen.C04Tables.wagRatesQ.getD k (0, 1))
+def wagFreq : Fin 20 → ℚ := fun i => ratOf (TTGen.C04Tables.wagFreqQ.getD i.val (0, 1))
+
+/-- **LG and WAG tables**: 20 frequencies and 190 exchangeabilities each, all strictly positive -/
+theorem lg_wag_tables_ok :
+    TTGen.C04Tables.lgFreqQ.size = 20 ∧ TTGen.C04Tables.lgRatesQ.size = 190 ∧
+    TTGen.C04Tables.wagFreqQ.size = 20 ∧ TTGen.C04Tables.wagRatesQ.size = 190 ∧
+    tablePositive TTGen.C04Tables.lgFreqQ = true ∧ tablePositive TTGen.C04Tables.lgRatesQ = true ∧
+    tablePositive TTGen.C04Tables.wagFreqQ = true ∧ tablePositive TTGen.C04Tables.wagRatesQ = true := by
+  decide +kernel
+
+/-- **MG94 state counts**: for every genetic code the number of coding triplets computed from the
+table (what `MG94.__init__` enumerates) is `NUMBER_OF_CODONS` (what sizes the frequency vector) -/
+theorem mg94_state_counts :
+    TTGen.C04Tables.geneticCodeTables.map (fun t => (codingIndices t).length)
+      = TTGen.C04Tables.numberOfCodons := by
+  decide
+
+/-! ## rate-matrix builders -/
+section builders
+variable {R : Type} [Field R] {n : Nat}
+
+/-- **Q_rows_zero**, every builder that goes through `R @ diag(pi)` with the diagonal set to minus
+the row sum: GeneralSymmetric (any mapping), GeneralNonSymmetric (any mapping), Empirical
+(`create_rate_matrix`, hence LG and WAG), MG94 (any masks, hence every genetic code) -/
+theorem Q_rows_zero_generalSym (mapping : Nat → Nat) (rates : Nat → R) (π : Fin n → R) (i : Fin n) :
+    ∑ j, generalSymQ mapping rates π i j = 0 :=
+  fromR_row_sum _ π (symR_diag _) i
+
+theorem Q_rows_zero_generalNonSym (dim : Nat) (mapping : Nat → Nat) (rates : Nat → R) (π : Fin n → R)
+    (i : Fin n) : ∑ j, generalNonSymQ dim mapping rates π i j = 0 :=
+  fromR_row_sum _ π (nonSymR_diag _ _) i
+
+theorem Q_rows_zero_empirical (rates : Nat → R) (π : Fin n → R) (i : Fin n) :
+    ∑ j, empiricalQ rates π i j = 0 :=
+  fromR_row_sum _ π (symR_diag _) i
+
+theorem Q_rows_zero_mg94 (mask : Nat → Bool × Bool × Bool) (a b k : R) (π : Fin n → R) (i : Fin n) :
+    ∑ j, mg94Q mask a b k π i j = 0 :=
+  fromR_row_sum _ π (symR_diag _) i
+
+theorem Q_rows_zero_hky (κ : R) (π : Fin 4 → R) (i : Fin 4) : ∑ j, hkyQ κ π i j = 0 := by
+  rw [hkyQ_eq_generalSym]; exact Q_rows_zero_generalSym _ _ π i
+
+theorem Q_rows_zero_gtr (r : Fin 6 → R) (π : Fin 4 → R) (i : Fin 4) : ∑ j, gtrQ r π i j = 0 := by
+  rw [gtrQ_eq_generalSym]; exact Q_rows_zero_generalSym _ _ π i
+
+/-- **Q_detailed_balance**: `π_i Q_ij = π_j Q_ji` for every symmetric-family builder, any `n`,
+any mapping into the rate vector, any frequencies -/
+theorem Q_detailed_balance_generalSym (mapping : Nat → Nat) (rates : Nat → R) (π : Fin n → R)
+    (i j : Fin n) : π i * generalSymQ mapping rates π i j = π j * generalSymQ mapping rates π j i :=
+  fromR_detailed_balance _ π (symR_symm _) i j
+
+theorem Q_detailed_balance_empirical (rates : Nat → R) (π : Fin n → R) (i j : Fin n) :
+    π i * empiricalQ rates π i j = π j * empiricalQ rates π j i :=
+  fromR_detailed_balance _ π (symR_symm _) i j
+
+theorem Q_detailed_balance_mg94 (mask : Nat → Bool × Bool × Bool) (a b k : R) (π : Fin n → R)
+    (i j : Fin n) : π i * mg94Q mask a b k π i j = π j * mg94Q mask a b k π j i :=
+  fromR_detailed_balance _ π (symR_symm _) i j
+
+theorem Q_detailed_balance_hky (κ : R) (π : Fin 4 → R) (i j : Fin 4) :
+    π i * hkyQ κ π i j = π j * hkyQ κ π j i := by
+  rw [hkyQ_eq_generalSym]; exact Q_detailed_balance_generalSym _ _ π i j
+
+theorem Q_detailed_balance_gtr (r : Fin 6 → R) (π : Fin 4 → R) (i j : Fin 4) :
+    π i * gtrQ r π i j = π j * gtrQ r π j i := by
+  rw [gtrQ_eq_generalSym]; exact Q_detailed_balance_generalSym _ _ π i j
+
+/-- **Q_normalised**: dividing by `norm = −Σ_i π_i Q_ii` scales any rate matrix to one expected
+substitution per unit time under the model's frequencies; zero row sums and detailed balance
+survive the division -/
+theorem Q_normalised (Q : Mat n R) (π : Fin n → R) (h : norm Q π ≠ 0) :
+    norm (normalised Q π) π = 1 ∧
+    (∀ i, ∑ j, Q i j = 0 → ∑ j, normalised Q π i j = 0) ∧
+    (∀ i j, π i * Q i j = π j * Q j i → π i * normalised Q π i j = π j * normalised Q π j i) :=
+  ⟨norm_normalised Q π h, fun i hi => normalised_row_sum Q π i hi,
+   fun i j hij => normalised_detailed_balance Q π i j hij⟩
+
+end builders
+
+section ordered
+variable {R : Type} [Field R] [LinearOrder R] [IsStrictOrderedRing R] {n : Nat}
+
+/-- **Q_offdiag_nonneg** for parameters `≥ 0` -/
+theorem Q_offdiag_nonneg_generalSym (mapping : Nat → Nat) (rates : Nat → R) (π : Fin n → R)
+    (hr : ∀ k, 0 ≤ rates k) (hπ : ∀ i, 0 ≤ π i) {i j : Fin n} (h : i ≠ j) :
+    0 ≤ generalSymQ mapping rates π i j :=
+  fromR_offdiag_nonneg _ π (symR_nonneg _ fun _ => hr _) hπ h
+
+theorem Q_offdiag_nonneg_generalNonSym (dim : Nat) (mapping : Nat → Nat) (rates : Nat → R)
+    (π : Fin n → R) (hr : ∀ k, 0 ≤ rates k) (hπ : ∀ i, 0 ≤ π i) {i j : Fin n} (h : i ≠ j) :
+    0 ≤ generalNonSymQ dim mapping rates π i j :=
+  fromR_offdiag_nonneg _ π (nonSymR_nonneg _ _ (fun _ => hr _) (fun _ => hr _)) hπ h
+
+theorem Q_offdiag_nonneg_empirical (rates : Nat → R) (π : Fin n → R)
+    (hr : ∀ k, 0 ≤ rates k) (hπ : ∀ i, 0 ≤ π i) {i j : Fin n} (h : i ≠ j) :
+    0 ≤ empiricalQ rates π i j :=
+  fromR_offdiag_nonneg _ π (symR_nonneg _ hr) hπ h
+
+theorem Q_offdiag_nonneg_mg94 (mask : Nat → Bool × Bool × Bool) (a b k : R) (π : Fin n → R)
+    (ha : 0 ≤ a) (hb : 0 ≤ b) (hk : 0 ≤ k) (hπ : ∀ i, 0 ≤ π i) {i j : Fin n} (h : i ≠ j) :
+    0 ≤ mg94Q mask a b k π i j :=
+  fromR_offdiag_nonneg _ π (symR_nonneg _ fun _ => mg94Rate_nonneg a b k ha hb hk _) hπ h
+
+theorem Q_offdiag_nonneg_hky (κ : R) (π : Fin 4 → R) (hκ : 0 ≤ κ) (hπ : ∀ i, 0 ≤ π i)
+    {i j : Fin 4} (h : i ≠ j) : 0 ≤ hkyQ κ π i j := by
+  rw [hkyQ_eq_generalSym]
+  exact Q_offdiag_nonneg_generalSym _ _ π (fun k => by unfold hkyRates; split_ifs <;> simp [hκ]) hπ h
+
+theorem Q_offdiag_nonneg_gtr (r : Fin 6 → R) (π : Fin 4 → R) (hr : ∀ k, 0 ≤ r k) (hπ : ∀ i, 0 ≤ π i)
+    {i j : Fin 4} (h : i ≠ j) : 0 ≤ gtrQ r π i j := by
+  rw [gtrQ_eq_generalSym]
+  exact Q_offdiag_nonneg_generalSym _ _ π (fun k => by split_ifs <;> simp [hr]) hπ h
+
+/-- the normaliser is strictly positive (so `Q_normalised` applies) for positive frequencies,
+non-negative rates and at least one positive rate: here for strictly positive rate vectors
+and at least two states -/
+theorem norm_pos_generalSym (mapping : Nat → Nat) (rates : Nat → R) (π : Fin (n + 2) → R)
+    (hr : ∀ k, 0 < rates k) (hπ : ∀ i, 0 < π i) : 0 < norm (generalSymQ mapping rates π) π :=
+  norm_fromR_pos _ π (symR_nonneg _ fun k => (hr _).le) hπ 0 1 (by simp [symR, hr])
+
+theorem norm_pos_mg94 (mask : Nat → Bool × Bool × Bool) (a b k : R) (π : Fin (n + 2) → R)
+    (ha : 0 < a) (hb : 0 < b) (hk : 0 < k) (hπ : ∀ i, 0 < π i) : 0 < norm (mg94Q mask a b k π) π :=
+  norm_fromR_pos _ π (symR_nonneg _ fun m => (mg94Rate_pos a b k ha hb hk _).le) hπ 0 1
+    (by simp [symR, mg94Rate_pos a b k ha hb hk])
+
+theorem norm_pos_hky (κ : R) (π : Fin 4 → R) (hκ : 0 < κ) (hπ : ∀ i, 0 < π i) :
+    0 < norm (hkyQ κ π) π := by
+  rw [hkyQ_eq_generalSym]
+  exact norm_pos_generalSym (n := 2) _ _ π (fun k => by unfold hkyRates; split_ifs <;> simp [hκ]) hπ
+
+end ordered
+
+/-- **LG / WAG**: with the literal tables of `amino_acid.py` (exact rational values), `q()` has zero
+row sums, non-negative off-diagonal entries, satisfies detailed balance, and its normaliser is
+strictly positive -/
+theorem lg_rate_matrix_ok :
+    (∀ i, ∑ j, empiricalQ lgRates lgFreq i j = 0) ∧
+    (∀ i j, i ≠ j → 0 ≤ empiricalQ lgRates lgFreq i j) ∧
+    (∀ i j, lgFreq i * empiricalQ lgRates lgFreq i j = lgFreq j * empiricalQ lgRates lgFreq j i) ∧
+    0 < norm (empiricalQ lgRates lgFreq) lgFreq := by
+  obtain ⟨hs1, hs2, -, -, hf, hr, -, -⟩ := lg_wag_tables_ok
+  have hrn : ∀ k, 0 ≤ lgRates k := fun k => getD_nonneg_of_tablePositive _ hr k
+  have hfp : ∀ i, 0 < lgFreq i := fun i => getD_pos_of_tablePositive _ hf i.val (by rw [hs1]; exact i.isLt)
+  refine ⟨Q_rows_zero_empirical _ _, fun i j h => Q_offdiag_nonneg_empirical _ _ hrn (fun i => (hfp i).le) h,
+    Q_detailed_balance_empirical _ _, ?_⟩
+  exact norm_fromR_pos _ _ (symR_nonneg _ hrn) hfp 0 1
+    (by rw [symR_zero_one (n := 18)]; exact getD_pos_of_tablePositive _ hr 0 (by rw [hs2]; norm_num))
+
+theorem wag_rate_matrix_ok :
+    (∀ i, ∑ j, empiricalQ wagRates wagFreq i j = 0) ∧
+    (∀ i j, i ≠ j → 0 ≤ empiricalQ wagRates wagFreq i j) ∧
+    (∀ i j, wagFreq i * empiricalQ wagRates wagFreq i j = wagFreq j * empiricalQ wagRates wagFreq j i) ∧
+    0 < norm (empiricalQ wagRates wagFreq) wagFreq := by
+  obtain ⟨-, -, hs1, hs2, -, -, hf, hr⟩ := lg_wag_tables_ok
+  have hrn : ∀ k, 0 ≤ wagRates k := fun k => getD_nonneg_of_tablePositive _ hr k
+  have hfp : ∀ i, 0 < wagFreq i := fun i => getD_pos_of_tablePositive _ hf i.val (by rw [hs1]; exact i.isLt)
+  refine ⟨Q_rows_zero_empirical _ _, fun i j h => Q_offdiag_nonneg_empirical _ _ hrn (fun i => (hfp i).le) h,
+    Q_detailed_balance_empirical _ _, ?_⟩
+  exact norm_fromR_pos _ _ (symR_nonneg _ hrn) hfp 0 1
+    (by rw [symR_zero_one (n := 18)]; exact getD_pos_of_tablePositive _ hr 0 (by rw [hs2]; norm_num))
+
+/-- non-vacuity of the builder theorems: HKY with `κ = 2`, `π = (1/10, 2/10, 3/10, 4/10)` -/
+example : 0 < norm (hkyQ (2 : ℚ) fun i => ((i.val : ℚ) + 1) / 10) fun i => ((i.val : ℚ) + 1) / 10 :=
+  norm_pos_hky _ _ (by norm_num) (fun i => by positivity)
+
+/-! ## closed forms -/
+
+/-- **jc_closed_form** for `GeneralJC69` with `n ≥ 2` states: `P(0) = I`; every row sums to one;
+every entry is in `[0,1]` for `t ≥ 0`; `P(s+t) = P(s)·P(t)`; the derivative at `0` is `q()`; and
+`q()` has zero row sums and is normalised under the uniform frequencies. -/
+theorem jc_closed_form (n : Nat) (hn : 2 ≤ n) :
+    generalJC69P n (0 : ℝ) = ident ∧
+    (∀ (t : ℝ) i, ∑ j, generalJC69P n t i j = 1) ∧
+    (∀ (t : ℝ), 0 ≤ t → ∀ i j, 0 ≤ generalJC69P n t i j ∧ generalJC69P n t i j ≤ 1) ∧
+    (∀ s t : ℝ, mmul (generalJC69P n s) (generalJC69P n t) = generalJC69P n (s + t)) ∧
+    (∀ i j, HasDerivAt (fun t : ℝ => generalJC69P n t i j) (generalJC69Q (α := ℝ) n i j) 0) ∧
+    (∀ i, ∑ j, generalJC69Q (α := ℝ) n i j = 0) ∧
+    norm (generalJC69Q (α := ℝ) n) (generalJC69Freq n) = 1 := by
+  have h2 : (2 : ℝ) ≤ (n : ℝ) := by exact_mod_cast hn
+  have hn0 : (n : ℝ) ≠ 0 := by linarith
+  exact ⟨generalJC69P_zero n hn0, fun t i => generalJC69P_row_sum n hn0 t i,
+    fun t ht i j => ⟨generalJC69P_nonneg n hn t ht i j, generalJC69P_le_one n hn t ht i j⟩,
+    generalJC69P_semigroup n hn0, generalJC69P_deriv_zero n hn, generalJC69Q_row_sum n hn,
+    generalJC69_norm n hn0⟩
+
+/-- **jc_closed_form** for `JC69` (the literal constants `0.25`, `3/4`, `4/3`, `1/3`) -/
+theorem jc69_closed_form :
+    jc69P (0 : ℝ) = ident ∧
+    (∀ (t : ℝ) i, ∑ j, jc69P t i j = 1) ∧
+    (∀ (t : ℝ), 0 ≤ t → ∀ i j, 0 ≤ jc69P t i j ∧ jc69P t i j ≤ 1) ∧
+    (∀ s t : ℝ, mmul (jc69P s) (jc69P t) = jc69P (s + t)) ∧
+    (∀ i j, HasDerivAt (fun t : ℝ => jc69P t i j) (jc69Q (α := ℝ) i j) 0) ∧
+    (∀ i, ∑ j, jc69Q (α := ℝ) i j = 0) ∧
+    norm (jc69Q (α := ℝ)) jc69Freq = 1 := by
+  have h := jc_closed_form 4 (by norm_num)
+  simp only [← jc69P_eq, ← jc69Q_eq, ← jc69Freq_eq] at h
+  exact h
+
+/-- **jc_eq_exp**: the closed form IS the matrix exponential of `t` times `q()` -/
+theorem jc_eq_exp (n : Nat) (hn : 2 ≤ n) (t : ℝ) :
+    toM (generalJC69P n t) = NormedSpace.exp (t • toM (generalJC69Q (α := ℝ) n)) :=
+  generalJC69P_eq_exp n hn t
+
+theorem jc69_eq_exp (t : ℝ) : toM (jc69P t) = NormedSpace.exp (t • toM (jc69Q (α := ℝ))) := by
+  rw [jc69P_eq, jc69Q_eq]; exact jc_eq_exp 4 (by norm_num) t
+
+/-! ## eigen path -/
+
+/-- **recon_eq_exp**: let `Q` be any matrix (in `p_t`: the normalised rate matrix), `π > 0`. If the
+pair `(e, V)` returned by `eigh` and the matrix returned by `inverse` satisfy the contract
+`sqrt_pi Q sqrt_pi⁻¹ = V diag(e) V⁻¹`, `V V⁻¹ = 1`, then what `SymmetricSubstitutionModel.p_t`
+computes, `(sqrt_pi⁻¹ V) diag(exp(e t)) (V⁻¹ sqrt_pi)`, is the matrix exponential `exp(t • Q)`. -/
+theorem recon_eq_exp {n : Nat} (π e : Fin n → ℝ) (V Vinv Q : Mat n ℝ) (hπ : ∀ i, 0 < π i)
+    (hV : toM V * toM Vinv = 1)
+    (hS : toM (symmetrised Q π) = toM V * diagonal e * toM Vinv) (t : ℝ) :
+    toM (recon π V Vinv e t) = NormedSpace.exp (t • toM Q) :=
+  recon_eq_exp_toM π e V Vinv Q hπ hV hS t
+
+/-- hence `P(0) = I` and `P(s+t) = P(s) P(t)` for the reconstruction -/
+theorem recon_zero_and_semigroup {n : Nat} (π e : Fin n → ℝ) (V Vinv Q : Mat n ℝ) (hπ : ∀ i, 0 < π i)
+    (hV : toM V * toM Vinv = 1)
+    (hS : toM (symmetrised Q π) = toM V * diagonal e * toM Vinv) :
+    recon π V Vinv e 0 = ident ∧
+    ∀ s t : ℝ, mmul (recon π V Vinv e s) (recon π V Vinv e t) = recon π V Vinv e (s + t) := by
+  constructor
+  · have h := recon_eq_exp π e V Vinv Q hπ hV hS 0
+    rw [exp_smul_zero, ← toM_ident] at h
+    exact h
+  · intro s t
+    have h := toM_mmul (recon π V Vinv e s) (recon π V Vinv e t)
+    rw [recon_eq_exp π e V Vinv Q hπ hV hS, recon_eq_exp π e V Vinv Q hπ hV hS, ← exp_smul_add,
+      ← recon_eq_exp π e V Vinv Q hπ hV hS] at h
+    exact h
+
+/-- non-vacuity: the contract is met by a concrete non-trivial instance (two states,
+`π = (1/2, 1/2)`, `Q = [[-1,1],[1,-1]]`, `e = (0,-2)`, `V = [[1,1],[1,-1]]`) -/
+example : ∃ (π e : Fin 2 → ℝ) (V Vinv Q : Mat 2 ℝ), (∀ i, 0 < π i) ∧ toM V * toM Vinv = 1 ∧
+    toM (symmetrised Q π) = toM V * diagonal e * toM Vinv ∧ Q 0 1 = 1 := by
+  refine ⟨fun _ => 1 / 2, fun i => if i = 0 then 0 else -2,
+    fun i j => if i = 1 ∧ j = 1 then -1 else 1, fun i j => if i = 1 ∧ j = 1 then -1 / 2 else 1 / 2,
+    fun i j => if i = j then -1 else 1, fun _ => by norm_num, ?_, ?_, by simp⟩
+  · ext i j
+    fin_cases i <;> fin_cases j <;> simp [Matrix.mul_apply, Fin.sum_univ_two] <;> norm_num
+  · have hs : Real.sqrt (1 / 2) ≠ 0 := (Real.sqrt_pos.mpr (by norm_num)).ne'
+    ext i j
+    fin_cases i <;> fin_cases j <;>
+      simp [symmetrised, Matrix.mul_apply, Fin.sum_univ_two, Matrix.diagonal_apply] <;>
+      field_simp
+
+/-! ## what the matrix exponential of a rate matrix satisfies -/
+
+/-- **exp_rows_one**: `Q·1 = 0 ⇒ exp(tQ)·1 = 1` -/
+theorem exp_rows_one {n : Nat} (Q : Matrix (Fin n) (Fin n) ℝ) (hQ : ∀ i, ∑ j, Q i j = 0) (t : ℝ)
+    (i : Fin n) : ∑ j, NormedSpace.exp (t • Q) i j = 1 :=
+  exp_row_sum Q hQ t i
+
+/-- **exp_stationary**: `πQ = 0 ⇒ π·exp(tQ) = π` -/
+theorem exp_stationary {n : Nat} (Q : Matrix (Fin n) (Fin n) ℝ) (π : Fin n → ℝ)
+    (hπ : ∀ j, ∑ i, π i * Q i j = 0) (t : ℝ) (j : Fin n) :
+    ∑ i, π i * NormedSpace.exp (t • Q) i j = π j :=
+  exp_stationary_of Q π hπ t j
+
+/-- **exp_reversible**: detailed balance lifts from `Q` to `exp(tQ)` -/
+theorem exp_reversible {n : Nat} (Q : Matrix (Fin n) (Fin n) ℝ) (π : Fin n → ℝ)
+    (hb : ∀ i j, π i * Q i j = π j * Q j i) (t : ℝ) (i j : Fin n) :
+    π i * NormedSpace.exp (t • Q) i j = π j * NormedSpace.exp (t • Q) j i :=
+  exp_detailed_balance Q π hb t i j
+
+/-- **exp_nonneg**: off-diagonal entries of `Q` non-negative and `t ≥ 0` ⇒ every entry of
+`exp(tQ)` is non-negative; with `exp_rows_one`, every row of `exp(tQ)` is a probability vector -/
+theorem exp_nonneg {n : Nat} (Q : Matrix (Fin n) (Fin n) ℝ) (hQ : ∀ i j, i ≠ j → 0 ≤ Q i j) (t : ℝ)
+    (ht : 0 ≤ t) (i j : Fin n) : 0 ≤ NormedSpace.exp (t • Q) i j :=
+  exp_entry_nonneg Q hQ t ht i j
+
+/-- **the property for the whole symmetric family in one statement**: for `Q = q()/norm` built by
+`fromR` from a symmetric non-negative `R` with zero diagonal and positive frequencies, under the
+`eigh` contract, the matrix computed by `p_t` has rows that are probability vectors, equals `I`
+at `0`, has the frequencies as stationary distribution and satisfies detailed balance. -/
+theorem p_t_symmetric_family {n : Nat} (Rm : Mat n ℝ) (π e : Fin n → ℝ) (V Vinv : Mat n ℝ)
+    (hR0 : ∀ i, Rm i i = 0) (hRs : ∀ i j, Rm i j = Rm j i) (hRn : ∀ i j, 0 ≤ Rm i j)
+    (hπ : ∀ i, 0 < π i) (hV : toM V * toM Vinv = 1)
+    (hS : toM (symmetrised (normalised (fromR Rm π) π) π) = toM V * diagonal e * toM Vinv)
+    (hnorm : 0 < norm (fromR Rm π) π) (t : ℝ) (ht : 0 ≤ t) :
+    let P := recon π V Vinv e t
+    (∀ i, ∑ j, P i j = 1) ∧ (∀ i j, 0 ≤ P i j) ∧
+    (∀ j, ∑ i, π i * P i j = π j) ∧ (∀ i j, π i * P i j = π j * P j i) := by
+  intro P
+  have hP : toM P = NormedSpace.exp (t • toM (normalised (fromR Rm π) π)) :=
+    recon_eq_exp π e V Vinv _ hπ hV hS t
+  have hrow : ∀ i, ∑ j, toM (normalised (fromR Rm π) π) i j = 0 := fun i =>
+    normalised_row_sum _ π i (fromR_row_sum Rm π hR0 i)
+  have hdb : ∀ i j, π i * toM (normalised (fromR Rm π) π) i j
+      = π j * toM (normalised (fromR Rm π) π) j i := fun i j =>
+    normalised_detailed_balance _ π i j (fromR_detailed_balance Rm π hRs i j)
+  have hoff : ∀ i j, i ≠ j → 0 ≤ toM (normalised (fromR Rm π) π) i j := fun i j h => by
+    simp only [toM_apply, normalised]
+    exact div_nonneg (fromR_offdiag_nonneg Rm π hRn (fun i => (hπ i).le) h) hnorm.le
+  have hrows := fun i => exp_rows_one _ hrow t i
+  have hbal := fun i j => exp_reversible _ π hdb t i j
+  have hnn := fun i j => exp_nonneg _ hoff t ht i j
+  rw [← hP] at hrows hbal hnn
+  refine ⟨hrows, hnn, fun j => ?_, hbal⟩
+  calc ∑ i, π i * P i j = ∑ i, π j * P j i := Finset.sum_congr rfl fun i _ => hbal i j
+    _ = π j := by rw [← Finset.mul_sum]; simp only [← toM_apply]; rw [hrows j, mul_one]
+
 end TTProps.C04
